@@ -344,20 +344,9 @@ def production_coverage(coverage):
 
 def simulate(count, seed, tag):
     """Random larger modules: TLC in simulation mode on the whole grammar with wide bounds."""
-    cfg = dict(grammar_cfgs.BASE)
-    g = grammar_cfgs
-    cfg.update(dict(Enabled=g.ALL, MaxNodes=60, MaxDecls=4, MaxParams=3, MaxMembers=3, MaxStmts=6, MaxBlock=4, MaxArgs=4,
-                    MaxElems=4, MaxFields=3, MaxSteps=3, Addrs=g.nset([0, 1, 2]), SetAddrs=g.nset([0, 1]),
-                    FlagSets="<- FlagSets_all", VarForms="<- VarForms_doc", FnNames=["f", "main"], ParamNames=["p", "q"],
-                    VarNames=["x", "y"], MemberNames=["m", "n"], GotoNames=["l", "return"], IntLits="<- IntLits_all",
-                    CharLits="<- CharLits_all", StrLits="<- StrLits_all", PrimTypes=g.ALL_PRIM, Builtins=g.ALL_BUILTINS,
-                    WordSizes=g.nset([1, 2, 4, 8, 16]), Files="<- Files_all", ArrayLens="<- ArrayLens_all",
-                    TrailingCommas="{TRUE, FALSE}", CmpOps=["==", "!=", "<", ">", "<=", ">="], **g.EXPR_OPS))
-    cfg_name = "MC_PenneGrammar_sim.cfg"
-    text = g.render(cfg, ["EmitCase"])
-    path = os.path.join(common.SPEC, cfg_name)
-    if not os.path.exists(path) or open(path).read() != text:
-        open(path, "w").write(text)
+    path = os.path.join(common.SPEC, "MC_PenneGrammar_sim.cfg")
+    if not os.path.exists(path):
+        raise common.ToolError("spec/MC_PenneGrammar_sim.cfg is missing (python3 checks/grammar_cfgs.py)")
     out_path = os.path.join(common.WORK, "grammar-sim-%s.out" % tag)
     metadir = os.path.join(common.WORK, "md-grammar-sim-%s" % tag)
     cmd = ["timeout", "600", "java", "-Xss1g", "-Xmx4g", "-XX:+UseParallelGC", "-cp", JAVA_CP, "tlc2.TLC", "-workers", "4",
